@@ -304,6 +304,93 @@ def _worker(args):
         )
 
 
+def shrink_ops(mod, case, kind):
+    """Greedy delta-debugging over case["ops"]: drop chunks, then single ops, while the same violation kind remains."""
+    if not isinstance(case, dict) or not isinstance(case.get("ops"), list):
+        return case
+
+    def fails(c):
+        reset_globals()
+        try:
+            mod.check_case(c)
+        except Violation as v:
+            return v.kind == kind
+        except Exception:  # noqa
+            return False
+        finally:
+            reset_globals()
+        return False
+
+    if not fails(case):
+        return case
+    ops = list(case["ops"])
+    chunk = max(1, len(ops) // 2)
+    while chunk >= 1:
+        i = 0
+        while i < len(ops):
+            trial = ops[:i] + ops[i + chunk:]
+            if fails(dict(case, ops=trial)):
+                ops = trial
+            else:
+                i += chunk
+        chunk //= 2
+    return dict(case, ops=ops)
+
+
+def run_atheris(modname, mod, seed, runs, nproc):
+    """Run `nproc` atheris fuzzers (eglib.fuzz) in parallel; -> a worker-style result dict."""
+    import shutil
+    import subprocess
+
+    probe = subprocess.run([sys.executable, "-c", "import sys; sys.path.insert(0, %r); import atheris" % os.path.join(VERIF, ".deps")],
+                           stdout=subprocess.DEVNULL, stderr=subprocess.DEVNULL)
+    if probe.returncode != 0:
+        return dict(evaluations=0, skipped_budget=0, nt=set(), nt_enum=0, classes=collections.Counter(), excluded=0, samples=[],
+                    failures={}, harness_errors=[], by_phase=collections.Counter(),
+                    info=dict(engine="atheris", skipped="atheris is not importable here; the coverage-guided phase was skipped"))
+    base = os.path.join(VERIF, "replays", ".fuzz", mod.ID)
+    shutil.rmtree(base, ignore_errors=True)
+    os.makedirs(base, exist_ok=True)
+    env = dict(os.environ, PYTHONHASHSEED="0", PYTHONDONTWRITEBYTECODE="1")
+    procs = []
+    for k in range(nproc):
+        out = os.path.join(base, str(k))
+        os.makedirs(out, exist_ok=True)
+        log = open(os.path.join(out, "log.txt"), "w")
+        procs.append((k, out, subprocess.Popen(
+            [sys.executable, "-m", "eglib.fuzz", modname, out, str(runs), str(shard_seed(seed, mod.ID + "-atheris", k) % (2 ** 31 - 1) + 1)],
+            cwd=VERIF, env=env, stdout=log, stderr=subprocess.STDOUT)))
+    res = dict(evaluations=0, skipped_budget=0, nt=set(), nt_enum=0, classes=collections.Counter(), excluded=0, samples=[],
+               failures={}, harness_errors=[], by_phase=collections.Counter())
+    corpus_total = 0
+    for k, out, p in procs:
+        try:
+            p.wait(timeout=3600)
+        except subprocess.TimeoutExpired:
+            p.kill()
+        st_path = os.path.join(out, "stats.json")
+        if os.path.exists(st_path):
+            st = json.load(open(st_path))
+            res["evaluations"] += st["evaluations"]
+            res["by_phase"]["atheris"] += st["evaluations"]
+            res["nt"] |= set(st.get("nt_hashes", []))
+        elif p.returncode not in (0, None):
+            tail = open(os.path.join(out, "log.txt")).read()[-1500:]
+            res["harness_errors"].append(f"atheris fuzzer {k} failed (rc={p.returncode}): {tail}")
+        corpus_total += len(os.listdir(os.path.join(out, "corpus"))) if os.path.isdir(os.path.join(out, "corpus")) else 0
+        for fn in sorted(os.listdir(out)):
+            if fn.startswith("fail-") and fn.endswith(".json"):
+                d = json.load(open(os.path.join(out, fn)))
+                res["failures"].setdefault(d["kind"], (d["case"], d["detail"]))
+    # libFuzzer does not minimise: shrink each failing history by greedy op removal (same failure kind must persist)
+    for kind, (case, detail) in list(res["failures"].items()):
+        res["failures"][kind] = (shrink_ops(mod, case, kind), detail)
+    res["classes"]["atheris-fuzzers"] = nproc
+    res["info"] = dict(engine="atheris 3.1 (libFuzzer) over eglib/fuzz.py byte decoder", fuzzers=nproc, runs_per_fuzzer=runs,
+                       executions=res["evaluations"], corpus_entries_found_by_coverage=corpus_total)
+    return res
+
+
 def known_findings():
     """Parse /verif/known_findings.txt -> (open {property: {key: text}}, fixed list)."""
     path = os.path.join(VERIF, "known_findings.txt")
@@ -454,6 +541,17 @@ def main(modname, tier, seed):
         for r in pool.imap_unordered(_worker, jobs):
             merge(r)
 
+    # ---- optional coverage-guided phase (atheris / libFuzzer), one fuzzer process per core
+    fuzz_info = None
+    fz = getattr(mod, "FUZZ", None)
+    if fz and not merged["harness_errors"]:
+        runs = int(fz.get(tier, 0))
+        if runs > 0:
+            r = run_atheris(modname, mod, seed, runs, nshards)
+            fuzz_info = r.pop("info", None)
+            r.setdefault("enum_done", True)
+            merge(r)
+
     # ---- optional extra phase (fresh-interpreter batches etc.)
     extra = getattr(mod, "extra_phase", None)
     extra_info = None
@@ -515,6 +613,8 @@ def main(modname, tier, seed):
         coverage["exhaustive_scope"] = enum_scope
     if extra_info:
         coverage["extra"] = extra_info
+    if fuzz_info:
+        coverage["atheris"] = fuzz_info
     evidence = dict(
         property_id=mod.ID,
         tier=tier,
